@@ -1091,6 +1091,9 @@ class Collection(Type, s_abc.Collection):
         parent_types = typing.cast(Collection, parent).get_subtypes(schema)
         my_types = self.get_subtypes(schema)
 
+        if len(parent_types) != len(my_types):
+            return False
+
         for pt, my in zip(parent_types, my_types):
             if not pt.is_any(schema) and not my.issubclass(schema, pt):
                 return False
